@@ -50,6 +50,8 @@ def budget(tier):
 def gen(rng, i, tier):
     if i % 10 == 9:     # targeted stream: state surviving between the runs of the iterated variant
         return mesgen.gen_stale(rng)
+    if i % 10 == 6:     # targeted stream: money within 1e-7..1e-15 of rho*utility / of the cost / of another rho
+        return mesgen.gen_near(rng)
     if i % 20 == 3:     # targeted stream: nothing to share + supported zero-cost projects
         return mesgen.gen_boundary(rng)
     if i % 20 == 13:    # targeted stream: app_score tie-breaking on a multiprofile, exact rho tie
@@ -90,7 +92,7 @@ def nontrivial(case, o):
     if not isinstance(o, dict) or "flags" not in o or o["flags"]["rounds"] < 1:
         return None
     return [case["costs"], case["budget"], case["ballot"], case["ballots"], case["sat"], case["multi"],
-            case["tb"], case["binary"], case["resolute"], case["inc"], case.get("init", [])]
+            case["tb"], case["binary"], case["resolute"], case["inc"], case.get("init", []), case.get("ballot_mults")]
 
 
 def stats(cases, obs):
@@ -110,6 +112,9 @@ def stats(cases, obs):
         d["multi"] += bool(c["multi"])
         d["stale_state_stream"] = d.get("stale_state_stream", 0) + (c.get("stream") == "stale")
         d["boundary_stream"] = d.get("boundary_stream", 0) + (c.get("stream") == "boundary")
+        d["near_boundary_stream"] = d.get("near_boundary_stream", 0) + (c.get("stream") == "near")
+        for k_ in ("near_poor", "near_rich", "exact_boundary", "near_tie", "near_afford", "bigmult"):
+            d["cases_" + k_] = d.get("cases_" + k_, 0) + bool(o["flags"].get(k_))
         d["appscore_tie_stream"] = d.get("appscore_tie_stream", 0) + (c.get("stream") == "appscore")
         d["zero_budget"] = d.get("zero_budget", 0) + (pb.F(c["budget"]) == 0)
         d["negative_scores"] = d.get("negative_scores", 0) + any(
@@ -144,7 +149,16 @@ def shrink(case):
         for v in range(nv):
             c = dict(case)
             c["ballots"] = case["ballots"][:v] + case["ballots"][v + 1:]
+            if case.get("ballot_mults"):
+                c["ballot_mults"] = case["ballot_mults"][:v] + case["ballot_mults"][v + 1:]
             yield c
+    if case.get("ballot_mults"):
+        for v, mu in enumerate(case["ballot_mults"]):
+            for mu2 in (1, mu // 10):
+                if 1 <= mu2 < mu:
+                    c = dict(case)
+                    c["ballot_mults"] = case["ballot_mults"][:v] + [mu2] + case["ballot_mults"][v + 1:]
+                    yield c
     # drop a project
     if m > 1:
         for j in range(m):
